@@ -2283,10 +2283,14 @@ def _config_str(
 
   import_manager = ImportManager(_IMPORTS)
   if import_manager.dynamic_registration:
-    for _, selector in configuration_object:
+    # In a fixed order (imports that have to be added get numbered aliases), so
+    # that the output doesn't depend on the order the bindings were made in.
+    selectors = {selector for _, selector in configuration_object}
+    selectors.update(
+        reference.configurable.selector
+        for reference in iterate_references(configuration_object))
+    for selector in sorted(selectors):
       import_manager.require_configurable(_REGISTRY[selector])
-    for reference in iterate_references(configuration_object):
-      import_manager.require_configurable(reference.configurable)
 
   # Build the output as an array of formatted Gin statements. Each statement may
   # span multiple lines. Imports are first, followed by macros, and finally all
